@@ -132,6 +132,7 @@ def run(H, tier, rng):
         check(H, "perfect", [[x, 20 - x] for x in range(21)], [k], [[k, 20 - k]], F(1, 100))
 
 
-Harness("C19", "4 curves x seeded random knee sets (1-4) x expected sets (curve points, exactly the knee points, off-curve points; ordered and "
-        "unordered) x tolerances {0,.01,.1,.15,.25,.5,1} x 4 strategies, plus competition / total-miss / perfect-detection cases; oracle: the "
-        "statement in exact rational arithmetic", "n <= 21, |K|,|E| <= 4").main(run)
+if __name__ == "__main__":
+    Harness("C19", "4 curves x seeded random knee sets (1-4) x expected sets (curve points, exactly the knee points, off-curve points; ordered and "
+            "unordered) x tolerances {0,.01,.1,.15,.25,.5,1} x 4 strategies, plus competition / total-miss / perfect-detection cases; oracle: the "
+            "statement in exact rational arithmetic", "n <= 21, |K|,|E| <= 4").main(run)
